@@ -256,3 +256,216 @@ func c17PushRound(t *testing.T, run *vlib.Run, round int, proto string, batches 
 		run.Sample(map[string]any{"protocol": proto, "documents": docs, "checkpoints": checkpoints})
 	}
 }
+
+
+// C17 at the system level, pull direction: the active gateway pulls from the passive one. The checkpoint value is a
+// sequence of the PASSIVE database; every value reaching the active side's checkpoint document is judged when it is
+// written: every change of the passive database at or below it must already be stored on the active side or have been
+// there before the replication started. The active side stores pulled revisions slowly, the changes batch size is 2-3 so
+// that several batches are in flight, and a PRNG-chosen subset of the documents is already known to the active side.
+func TestVerif_C17_Pull(t *testing.T) {
+	run := vlib.Start(t, "C17", "pull")
+	defer run.Finish()
+	rounds := run.N(6, 60)
+	for round := 0; round < rounds; round++ {
+		for _, proto := range []string{db.CBMobileReplicationV3.SubprotocolString(), db.CBMobileReplicationV4.SubprotocolString()} {
+			t.Run(fmt.Sprintf("r%d-%s", round, proto), func(t *testing.T) { c17PullRound(t, run, round, proto) })
+		}
+	}
+}
+
+func c17PullRound(t *testing.T, run *vlib.Run, round int, proto string) {
+	r := run.CaseRand(round)
+	vsA := newVStore(t) // active (pulling)
+	vsP := newVStore(t) // passive
+	ctx := base.TestCtx(t)
+	t.Cleanup(func() { vsA.Close(ctx); vsP.Close(ctx) })
+	peers := SetupISGRPeersWithOpts(t, TestISGRPeerOpts{
+		ActivePeerSupportedBLIPSubProtocols: []string{proto},
+		ActiveRestTesterConfig: &RestTesterConfig{DatabaseConfig: &DatabaseConfig{DbConfig: DbConfig{Name: "activedb"}}, SgReplicateEnabled: true,
+			SyncFn: channels.DocChannelsSyncFunction, CustomTestBucket: vsA.vtb},
+		PassiveRestTesterConfig: &RestTesterConfig{DatabaseConfig: &DatabaseConfig{DbConfig: DbConfig{Name: "passivedb"}},
+			SyncFn: channels.DocChannelsSyncFunction, CustomTestBucket: vsP.vtb},
+	})
+	active, passive := peers.ActiveRT, peers.PassiveRT
+	batchSize := vlib.Pick(r, []int{2, 3, 200})
+	n := r.Range(5, 9)
+	type docT struct {
+		ID    string
+		Seq   uint64 // sequence in the passive database
+		Known bool
+	}
+	docs := make([]*docT, n)
+	firstWanted := r.Intn(3)
+	for i := range docs {
+		d := &docT{ID: fmt.Sprintf("c17l-%d-%d", round, i), Known: r.Bool()}
+		if i <= firstWanted {
+			d.Known = false
+		}
+		if batchSize < 200 && i >= batchSize {
+			d.Known = r.Chance(3, 4)
+		}
+		body := fmt.Sprintf(`{"channels":["alice"],"n":%d,"_revisions":{"start":1,"ids":["abc%d"]}}`, i, i)
+		resp := passive.SendAdminRequest("PUT", "/{{.keyspace}}/"+d.ID+"?new_edits=false", body)
+		if resp.Code != 201 {
+			t.Fatalf("passive put: %d %s", resp.Code, resp.Body.String())
+		}
+		if d.Known {
+			resp = active.SendAdminRequest("PUT", "/{{.keyspace}}/"+d.ID+"?new_edits=false", body)
+			if resp.Code != 201 {
+				t.Fatalf("active put: %d %s", resp.Code, resp.Body.String())
+			}
+		}
+		d.Seq = passive.GetDocumentSequence(d.ID)
+		docs[i] = d
+	}
+	active.WaitForPendingChanges()
+	passive.WaitForPendingChanges()
+	activeRaw := base.GetBaseDataStore(active.GetSingleDataStore())
+
+	delay := time.Duration(r.Range(30, 80)) * time.Millisecond
+	slowFirst := r.Bool() // only the first batch's documents are stored slowly / all are
+	slowLookup := batchSize < 200 && r.Bool() // the pulling side looks up the first batch's documents slowly while it answers the changes message
+	vsA.SetFault(func(op *base.VerifOp, actor string) base.VerifDecision {
+		if slowLookup && strings.HasPrefix(op.Kind, "Get") && strings.HasPrefix(op.Key, "c17l-") {
+			for i := 0; i < batchSize && i < len(docs); i++ {
+				if docs[i].ID == op.Key {
+					time.Sleep(delay)
+				}
+			}
+		}
+		if op.Kind == "WriteUpdateWithXattrs" && strings.HasPrefix(op.Key, "c17l-") {
+			if slowFirst {
+				for i := 0; i < batchSize && i < len(docs); i++ {
+					if docs[i].ID == op.Key {
+						time.Sleep(delay)
+					}
+				}
+			} else {
+				time.Sleep(delay)
+			}
+		}
+		return base.VerifDecision{}
+	})
+	defer vsA.SetFault(nil)
+
+	// widen the window between the two checkpointer notifications of a pulled changes batch (hook H2)
+	db.SetVerifPointHook(func(name string) {
+		if name == "pull-changes-between-expected-and-known" {
+			time.Sleep(25 * time.Millisecond)
+		}
+	})
+	defer db.SetVerifPointHook(nil)
+
+	var mu sync.Mutex
+	var checkpoints []string
+	judged := 0
+	var lastSeq db.SequenceID
+	vsA.SetPostHook(func(op *base.VerifOp) {
+		if !op.Applied || !strings.Contains(op.Key, db.CheckpointDocIDPrefix) || len(op.Value) == 0 {
+			return
+		}
+		var cp struct {
+			LastSeq string `json:"last_sequence"`
+		}
+		if json.Unmarshal(op.Value, &cp) != nil || cp.LastSeq == "" {
+			return
+		}
+		seq, err := db.ParsePlainSequenceID(cp.LastSeq)
+		if err != nil {
+			return
+		}
+		mu.Lock()
+		defer mu.Unlock()
+		checkpoints = append(checkpoints, cp.LastSeq)
+		judged++
+		if seq.Before(lastSeq) {
+			run.Violation("monotone", "C17|pull|persisted-checkpoint-moved-backwards", fmt.Sprintf("local checkpoint %s written after %s", cp.LastSeq, lastSeq.String()), map[string]any{"checkpoints": checkpoints, "protocol": proto})
+		}
+		lastSeq = seq
+		var behind []string
+		for _, d := range docs {
+			if d.Known || d.Seq > seq.SafeSequence() {
+				continue
+			}
+			if ok, _ := activeRaw.Exists(context.Background(), d.ID); !ok {
+				behind = append(behind, fmt.Sprintf("%s(seq %d)", d.ID, d.Seq))
+			}
+		}
+		if len(behind) > 0 {
+			shape := []string{}
+			for _, d := range docs {
+				k := "wanted"
+				if d.Known {
+					k = "known"
+				}
+				shape = append(shape, fmt.Sprintf("%d:%s", d.Seq, k))
+			}
+			sig := "C17|pull|persisted-checkpoint-ahead-of-an-announced-unprocessed-change"
+			if batchSize < 200 {
+				sig = "C17|pull|several-batches-in-flight|persisted-checkpoint-ahead-of-an-announced-unprocessed-change"
+			}
+			run.Violation("safety", sig,
+				fmt.Sprintf("checkpoint %s was persisted while %v had not been stored by the pulling peer yet (a restart from this checkpoint skips them)", cp.LastSeq, behind),
+				map[string]any{"protocol": proto, "feed": shape, "changes_batch_size": batchSize, "checkpoints": checkpoints, "active_store_delay_ms": delay.Milliseconds(), "only_first_batch_slow": slowFirst, "first_batch_looked_up_slowly": slowLookup})
+		}
+	})
+	defer vsA.SetPostHook(nil)
+
+	replID := fmt.Sprintf("c17pull%d%s", round, strings.ReplaceAll(proto, ".", ""))
+	stats, err := base.SyncGatewayStats.NewDBStats(replID, false, false, false, false, nil, nil)
+	if err != nil {
+		t.Fatalf("stats: %v", err)
+	}
+	rstats, err := stats.DBReplicatorStats(replID)
+	if err != nil {
+		t.Fatalf("rstats: %v", err)
+	}
+	remote, _ := url.Parse(peers.PassiveDBURL)
+	ar, err := db.NewActiveReplicator(active.Context(), &db.ActiveReplicatorConfig{
+		ID: replID, Direction: db.ActiveReplicatorTypePull, RemoteDBURL: remote,
+		ActiveDB:               &db.Database{DatabaseContext: active.GetDatabase()},
+		ChangesBatchSize:       uint16(batchSize),
+		CheckpointInterval:     2 * time.Millisecond,
+		ReplicationStatsMap:    rstats,
+		CollectionsEnabled:     !active.GetDatabase().OnlyDefaultCollection(),
+		SupportedBLIPProtocols: []string{proto},
+		Continuous:             true,
+	})
+	if err != nil {
+		t.Fatalf("replicator: %v", err)
+	}
+	if err := ar.Start(active.Context()); err != nil {
+		t.Fatalf("start: %v", err)
+	}
+	deadline := time.Now().Add(30 * time.Second)
+	for {
+		missing := 0
+		for _, d := range docs {
+			if ok, _ := activeRaw.Exists(context.Background(), d.ID); !ok {
+				missing++
+			}
+		}
+		if missing == 0 {
+			break
+		}
+		if time.Now().After(deadline) {
+			run.Inconclusive("pull did not deliver every document within the watchdog")
+			break
+		}
+		time.Sleep(5 * time.Millisecond)
+	}
+	time.Sleep(30 * time.Millisecond)
+	_ = ar.Stop()
+	mu.Lock()
+	run.Count("checkpoint_values_judged", judged)
+	run.Count("documents_pulled", n)
+	mu.Unlock()
+	run.Eval()
+	if judged > 0 {
+		run.Nontrivial(fmt.Sprintf("%d/%s/%d/%d", round, proto, batchSize, judged))
+	}
+	if round == 0 {
+		run.Sample(map[string]any{"protocol": proto, "documents": docs, "checkpoints": checkpoints, "changes_batch_size": batchSize})
+	}
+}
